@@ -22,6 +22,14 @@ def gen(rng):
         # producer >> StackTime >> consumer, and a second consumer of the same producer with a longer step
         return {"part": "pkg", "shape": "stack", "src_step": 1, "steps": [rng.choice([2, 3]), rng.choice([3, 4, 5])],
                 "days": rng.randint(6, 12)}
+    if r < 0.58:
+        # two noise generators with different seeds (the noise library keeps one process-wide seed)
+        return {"part": "pkg", "shape": "noise2", "seeds": [rng.randint(1, 50), rng.randint(51, 99)], "steps": [rng.choice([1, 2]), rng.choice([1, 2])],
+                "days": rng.randint(3, 6)}
+    if r < 0.70:
+        # no start time given to run(): it is the earliest time among the components, one of which (a TimeTrigger without
+        # a start) learns its time only during connect
+        return {"part": "pkg", "shape": "autostart", "starts": [rng.choice([0, 1]), rng.choice([2, 3, 4])], "days": rng.randint(6, 9)}
     n_mid = rng.choice([1, 1, 2])
     return {"part": "pkg", "mids": [{"initial_pull": rng.random() < 0.5, "step": rng.choice([1, 2, 3])} for _ in range(n_mid)],
             "src_step": rng.choice([1, 1, 2]), "sink_step": rng.choice([1, 2, 4]), "sink_pull": rng.random() < 0.7,
@@ -62,6 +70,24 @@ def run_special(case, order):
         rb = _recorder("b", case["steps"][1], series, counting)
         comps = [gen_c, ra, rb]
         links = [("A", ra), ("B", rb)]
+    elif case["shape"] == "noise2":
+        info = lambda: fm.Info(time=None, grid=fm.UnstructuredPoints([[0.0, 0.0], [1.5, 0.5], [0.3, 2.0]]), units="")  # noqa
+        na = fm.components.SimplexNoise(info=info(), frequency=0.3, time_frequency=0.2, octaves=2, persistence=0.5, seed=case["seeds"][0])
+        nb = fm.components.SimplexNoise(info=info(), frequency=0.3, time_frequency=0.2, octaves=2, persistence=0.5, seed=case["seeds"][1])
+        ra = _recorder("a", case["steps"][0], series, counting)
+        rb = _recorder("b", case["steps"][1], series, counting)
+        comps = [na, nb, ra, rb]
+        links = [(na, "Noise", ra), (nb, "Noise", rb)]
+    elif case["shape"] == "autostart":
+        info = lambda: fm.Info(time=None, grid=fm.NoGrid(), units="")  # noqa
+        ge = fm.components.CallbackGenerator({"Out": (lambda t: float(t.toordinal() % 100), info())},
+                                             START + dt.timedelta(days=case["starts"][0]), dt.timedelta(days=1))
+        gl = fm.components.CallbackGenerator({"Out": (lambda t: float(1000 + t.toordinal() % 100), info())},
+                                             START + dt.timedelta(days=case["starts"][1]), dt.timedelta(days=1))
+        trig = fm.components.TimeTrigger(start=None, step=dt.timedelta(days=1), in_info=fm.Info(time=None, grid=None, units=None))
+        comps = [ge, gl, trig]
+        links = [(gl, "Out", trig)]
+        series["trigger_start"] = []
     else:
         grid = fm.UniformGrid((3, 2))
         gen_c = fm.components.CallbackGenerator(
@@ -74,12 +100,20 @@ def run_special(case, order):
     res = {"error": None}
     try:
         comp = fm.Composition([comps[i] for i in order], log_level="ERROR")
-        for a, b in links:
-            if b is None:
-                gen_c.outputs[a] >> fm.adapters.StackTime() >> ra.inputs["In"]
+        for lk in links:
+            if len(lk) == 3:
+                lk[0].outputs[lk[1]] >> lk[2].inputs["In"]
+            elif lk[1] is None:
+                gen_c.outputs[lk[0]] >> fm.adapters.StackTime() >> ra.inputs["In"]
             else:
-                gen_c.outputs[a] >> b.inputs["In"]
-        comp.run(start_time=START, end_time=START + dt.timedelta(days=case["days"]))
+                gen_c.outputs[lk[0]] >> lk[1].inputs["In"]
+        if case["shape"] == "autostart":
+            comp.connect()
+            series["time_frame"] = [comp._time_frame[0].isoformat() if comp._time_frame[0] else None]
+            series["published_at_connect"] = [[t.isoformat() for t, _d in c.outputs["Out"].data] for c in comps[:2]]
+            comp.run(end_time=START + dt.timedelta(days=case["days"]))
+        else:
+            comp.run(start_time=START, end_time=START + dt.timedelta(days=case["days"]))
     except Exception as e:  # noqa
         res["error"] = type(e).__name__
         res["msg"] = str(e)[:200]
@@ -143,7 +177,7 @@ def run_order(case, order):
 
 def check(case):
     """returns None or (required, observed)"""
-    n = 3 if case.get("shape") else len(case["mids"]) + 2
+    n = (4 if case.get("shape") == "noise2" else 3) if case.get("shape") else len(case["mids"]) + 2
     first = None
     for order in itertools.permutations(range(n)):
         r = run_order(case, list(order))
